@@ -15,7 +15,8 @@ RULE = ("one run = a generated object tree (depth 2-3, fan-out <= 3, object list
         "sub-object is random in the call) and single-field pin-probes on each sibling separately: "
         "the implementation's verdict must equal the reference verdict, so a constraint aliased onto "
         "the wrong sibling shows twice. Non-trivial = a judged call on a tree with >= 2 sub-objects of "
-        "one class and >= 1 cross-level statement; distinct = (tree shape, op 3-grams).")
+        "one class and >= 1 cross-level statement; distinct = (tree shape, op 3-grams)."
+        " Object lists are also edited by index assignment, legal appends and rejected appends (caught exception); witness oracle for spurious failures.")
 REAL = ["pyvsc (all of src/vsc)", "PyBoolector"]
 STUB = ["user code (generated)", "stdout (sink)"]
 ASSUMPTIONS = ["statement shapes are those C01 validates; list elements reached through a list index "
